@@ -19,6 +19,7 @@ encoded as in `Proto` (code points joined by '.', `-` = empty string).
                      `H<path>` | `K` (KeyError) | `F` (model out of fuel), joined by ';'
         inc        : for every type of types++refs `<include path as posix>@<type_to_include_path as posix>`
       paths are parts joined by '/', posix strings are encoded strings, errors `E<kind>`.
+  `treeold …`    the same through `Namespace.__eq__` as it was before the fix (stropped full name)
   `path <op> …`  the pathlib fragment on its own:
       `path join <seg>,<seg>,…`      → parts of `PurePosixPath(*segs)`
       `path suffix <seg> <ext>`      → parts of `PurePosixPath(seg).with_suffix(ext)` | `E…`
@@ -85,7 +86,7 @@ def parseOrder (s : String) (idx : List Key) : Option (List Key) :=
     | some ks => if ks.all (fun k => idx.contains k) ∧ idx.all (fun k => ks.contains k) then some ks else none
     | none => none
 
-def answerTree (enable : Bool) (ext stem outDir : Str) (order : String) (tab : List (Str × Str))
+def answerTree (old : Bool) (enable : Bool) (ext stem outDir : Str) (order : String) (tab : List (Str × Str))
     (ts refs : List Ty) : String :=
   let needed := (ts ++ refs).flatMap (fun t => shortVer t :: t.ns) ++ (if ts.isEmpty then [[]] else [])
   if needed.any (fun n => (tab.lookup n).isNone) then "err:strop-missing" else
@@ -93,11 +94,12 @@ def answerTree (enable : Bool) (ext stem outDir : Str) (order : String) (tab : L
   match parseOrder order (loop1 cfg ts).idx with
   | none => "err:order"
   | some ks =>
-  let tr := buildWith cfg ts ks
-  if ¬ buildOk tr then "err:value" else
+  let same : Key → Key → Bool := if old then sameNsBeforeFix cfg else sameNs
+  let tr := if old then buildWithBeforeFix cfg ts ks else buildWith cfg ts ks
+  if ¬ buildOk cfg tr then "err:value" else
   let nss := allNamespaces tr
   let every := ts ++ refs
-  let finds := nss.flatMap (fun s => every.map (fun t => showFound (findPath cfg tr.store s t)))
+  let finds := nss.flatMap (fun s => every.map (fun t => showFound (findPathBy same tr.store s t)))
   let inc := every.map (fun t => s!"{showPosix (includePath cfg t)}@{showPosix (typeToIncludePath cfg tr t)}")
   " ".intercalate ["ok", showKey tr.root, semi (tr.store.map showNode), semi (nss.map showKey),
     semi ((allDatatypes tr).map showEntry), semi ((allTypes tr).map showItem), semi finds, semi inc]
@@ -128,12 +130,13 @@ def answerPath (args : List String) : String :=
 
 def answer (line : String) : String :=
   match line.splitOn " " with
-  | ["tree", en, ext, stem, outDir, order, strops, types, refs] =>
+  | [op, en, ext, stem, outDir, order, strops, types, refs] =>
+    if op ≠ "tree" ∧ op ≠ "treeold" then "bad-op" else
     match decodeStr ext, decodeStr stem, decodeStr outDir, listOf strops ',' parsePair,
           listOf types ',' parseTy, listOf refs ',' parseTy with
     | some ext, some stem, some outDir, some tab, some ts, some refs =>
       if en = "0" ∨ en = "1" then
-        answerTree (en = "1") ext stem outDir order tab ts refs
+        answerTree (op = "treeold") (en = "1") ext stem outDir order tab ts refs
       else "bad-op"
     | _, _, _, _, _, _ => "bad-op"
   | "path" :: args => answerPath args
